@@ -239,6 +239,67 @@ fn held_value_case(index: u64, st: &mut Stats) {
     }
 }
 
+/// Held-callee family (C10): the function a call goes to is read from a mutable variable before the
+/// arguments are evaluated; an argument's call re-binds the variable (the only assignment sits in one of
+/// 12 syntactic positions, the variable is a global or a captured local), the pending call still goes to
+/// the function that was read. 5 call forms.
+const CALLEE_SLOTS: u64 = 12 * 2 * 5;
+
+fn held_callee_case(index: u64, st: &mut Stats) {
+    let pos = (index % 12) as usize;
+    let captured = (index / 12) % 2 == 1;
+    let read = ((index / 24) % 5) as usize;
+    let pos_names = ["plain", "if-arm", "else-arm", "elif-arm", "case-arm", "case-else", "loop-body", "block", "closure", "method", "nested", "for_each-lambda"];
+    let body = match pos {
+        0 => "ASSIGN".to_string(),
+        1 => "if true do\n    ASSIGN\nend".to_string(),
+        2 => "if h(0) < 0 do\n    print(0)\nelse do\n    ASSIGN\nend".to_string(),
+        3 => "if h(0) < 0 do\n    print(0)\nelif true do\n    ASSIGN\nend".to_string(),
+        4 => "case E.A 1 do\n    A q ->\n        ASSIGN\n    end\n    B ->\n    end\nend".to_string(),
+        5 => "case E.B do\n    A q ->\n        print(q)\n    end\n    else\n        ASSIGN\n    end\nend".to_string(),
+        6 => "i := 0\nloop i < 1 do\n    i += 1\n    ASSIGN\nend".to_string(),
+        7 => "do\n    ASSIGN\nend".to_string(),
+        8 => "w :: fn do\n    ASSIGN\nend\nw()".to_string(),
+        9 => "o :: Bq { f: fn do\n    ASSIGN\nend }\no.f()".to_string(),
+        10 => "do\n    i := 0\n    loop i < 1 do\n        i += 1\n        if i > 0 do\n            ASSIGN\n        end\n    end\nend".to_string(),
+        _ => "list.for_each([1], fn e do\n    ASSIGN\nend)".to_string(),
+    }
+    .replace("ASSIGN", "h = times");
+    let read_src = ["h(side(2))", "h' side(2)", "side(2) -> h()", "k :: h\nside(2)\nk(2)", "(h, side(2))[0](2)"][read];
+    let indent = |t: &str, n: usize| t.lines().map(|l| format!("{}{}", " ".repeat(n), l)).collect::<Vec<_>>().join("\n");
+    let decls = "E :: enum\n    A int,\n    B,\nend\n\nBq :: blob {\n    f: fn -> void,\n}\n\ntimes :: fn n: int -> int do\n    n * 100\nend\n\n";
+    let text = if captured {
+        format!(
+            "{}start :: fn do\n    h := fn n: int -> int do\n        n + 1\n    end\n    bump :: fn do\n{}\n    end\n    side :: fn n: int -> int do\n        bump()\n        n\n    end\n    probe :: fn -> int do\n{}\n    end\n    print(probe())\n    print(h(1))\nend\n",
+            decls,
+            indent(&body, 8),
+            indent(read_src, 8)
+        )
+    } else {
+        format!(
+            "{}h := fn n: int -> int do\n    n + 1\nend\n\nbump :: fn do\n{}\nend\n\nside :: fn n: int -> int do\n    bump()\n    n\nend\n\nprobe :: fn -> int do\n{}\nend\n\nstart :: fn do\n    print(probe())\n    print(h(1))\nend\n",
+            decls,
+            indent(&body, 4),
+            indent(read_src, 4)
+        )
+    };
+    let expect = vec!["3".to_string(), "100".to_string()];
+    let what = format!("only re-binding in {}, {} variable, call form `{}`", pos_names[pos], if captured { "captured local" } else { "global" }, read_src.replace("\n", " ; "));
+    st.count("held_callee_programs");
+    let viol = |sig: &str, obs: String| Violation { signature: sig.to_string(), hazard: None, case: index, detail: J::obj().with("what", J::s(what.clone())).with("program", J::s(text.clone())).with("expected_prints", J::Arr(expect.iter().map(|e| J::s(e.clone())).collect())).with("observed", J::s(obs)) };
+    match sy::compile_files(&sy::one_file(&text), "main.sy", &sy::CompileOpts { fuel: Some(crate::rel::CAMPAIGN_FUEL), ..Default::default() }) {
+        sy::Compiled::Ok(b) => match lua::run_simple(&String::from_utf8_lossy(&b)) {
+            lua::Simple::Prints(p) if p == expect => {
+                st.count("held_callee_programs_as_expected");
+                st.nontrivial(hash64(text.as_bytes()));
+            }
+            lua::Simple::Prints(p) => st.violation(viol("held:callee-changed-by-argument-call", format!("{:?}", p))),
+            other => st.violation(viol("held:callee-run-failed", format!("{:?}", other).chars().take(300).collect())),
+        },
+        other => st.violation(viol("held:callee-template-rejected", other.brief())),
+    }
+}
+
 /// Expression-result family (C01): the value of an if / case / and / or expression is combined with the
 /// result of a recursive call of the same function; each activation's expression value depends on its
 /// argument, so the sum has a closed form. 12 expression shapes x value before / after the call.
@@ -283,6 +344,39 @@ fn expression_result_case(index: u64, st: &mut Stats) {
             other => st.violation(viol("trace:expression-result-run-failed", format!("{:?}", other).chars().take(300).collect())),
         },
         other => st.violation(viol("trace:expression-result-template-rejected", other.brief())),
+    }
+}
+
+/// String-literal family (C01): every ASCII byte a literal can hold (all but `"`, `\`, LF, CR - the quarantined
+/// backslash/newline feature) stands in a literal directly before digits and letters; the running program must
+/// print exactly the bytes that were written, also after a concatenation.
+const STRING_SLOTS: u64 = 123;
+
+fn string_literal_case(index: u64, st: &mut Stats) {
+    let bytes: Vec<u8> = (1u8..=127).filter(|b| ![b'"', b'\\', b'\n', b'\r'].contains(b)).collect();
+    let b = bytes[index as usize % bytes.len()] as char;
+    let mut body = String::new();
+    let mut expect = Vec::new();
+    for (i, follow) in ["", "7", "42", "99", "255", "x41", "z", "u{41}", "n", "065", " 1"].iter().enumerate() {
+        let lit = format!("{}{}{}", if i % 2 == 0 { "id" } else { "" }, b, follow);
+        body.push_str(&format!("    w{} :: \"{}\"\n    print(w{})\n    print(w{} + \"9\")\n", i, lit, i, i));
+        expect.push(lit.clone());
+        expect.push(format!("{}9", lit));
+    }
+    let text = format!("start :: fn do\n{}end\n", body);
+    st.count("string_literal_programs");
+    let viol = |sig: &str, obs: String| Violation { signature: sig.to_string(), hazard: None, case: index, detail: J::obj().with("byte", J::Int(b as i64)).with("program", J::s(text.clone())).with("expected_prints", J::Arr(expect.iter().map(|e| J::s(e.clone())).collect())).with("observed", J::s(obs)) };
+    match sy::compile_files(&sy::one_file(&text), "main.sy", &sy::CompileOpts { fuel: Some(crate::rel::CAMPAIGN_FUEL), ..Default::default() }) {
+        sy::Compiled::Ok(bytes) => match lua::run_simple(&String::from_utf8_lossy(&bytes)) {
+            lua::Simple::Prints(p) if p == expect => {
+                st.count("string_literal_programs_as_expected");
+                st.nontrivial(hash64(text.as_bytes()));
+            }
+            lua::Simple::Prints(p) => st.violation(viol("trace:string-literal-content", format!("{:?}", p))),
+            other => st.violation(viol("trace:string-literal-run-failed", format!("{:?}", other).chars().take(300).collect())),
+        },
+        sy::Compiled::Err { .. } => st.count("string_literal_programs_rejected"),
+        other => st.violation(viol("trace:string-literal-compile", other.brief())),
     }
 }
 
@@ -524,6 +618,10 @@ impl Check for Traced {
             expression_result_case(index - CORPUS_SLOTS, st);
             return;
         }
+        if self.prop == "C01" && index < CORPUS_SLOTS + RESULT_SLOTS + STRING_SLOTS {
+            string_literal_case(index - CORPUS_SLOTS - RESULT_SLOTS, st);
+            return;
+        }
         if self.prop == "C10" && index < HELD_SLOTS {
             held_value_case(index, st);
             return;
@@ -534,6 +632,10 @@ impl Check for Traced {
         }
         if self.prop == "C10" && index < HELD_SLOTS + CAPTURE_SLOTS + TARGET_SLOTS {
             assign_target_case(index - HELD_SLOTS - CAPTURE_SLOTS, st);
+            return;
+        }
+        if self.prop == "C10" && index < HELD_SLOTS + CAPTURE_SLOTS + TARGET_SLOTS + CALLEE_SLOTS {
+            held_callee_case(index - HELD_SLOTS - CAPTURE_SLOTS - TARGET_SLOTS, st);
             return;
         }
         let mut rng = Rng::for_case(ctx.seed, self.prop, index);
@@ -548,7 +650,16 @@ impl Check for Traced {
             cfg.start_stmts = 6;
         }
         let p = gen::generate(&mut rng, cfg);
-        let text = print::canonical(&p);
+        // a quarter of the programs is printed with maximal legal shadowing (a name is reused as soon as the scope
+        // rules allow it): which variable a name means then depends on every scope ending exactly where it should
+        let text = if index % 4 == 1 {
+            let an = crate::scope::analyse(&p);
+            let (names, _) = crate::c08_09_14::shadow_names(&p, &an, if index % 8 == 1 { 0 } else { rng.next() | 1 }, crate::c08_09_14::LOCAL_POOL);
+            st.count("programs_printed_with_shadowing_names");
+            crate::rel::print_with(&p, &|b: BId| names[b].clone(), &|_s: crate::print::AnnotSite| true, None, None, None)
+        } else {
+            print::canonical(&p)
+        };
         let ob = observe(&p, &text, true);
         st.count("programs");
         if let Some(r) = &ob.ref_result {
